@@ -394,6 +394,7 @@ static PyObject *Dtool_MutableSequenceWrapper_pop(PyObject *self, PyObject *args
   PyObject *value = wrap->_getitem_func(wrap->_base._self, index);
   if (value != nullptr) {
     if (wrap->_setitem_func(wrap->_base._self, index, nullptr) != 0) {
+      Py_DECREF(value);
       return nullptr;
     }
     return value;
@@ -853,6 +854,7 @@ static PyObject *Dtool_MutableMappingWrapper_popitem(PyObject *self, PyObject *)
       }
       Py_DECREF(value);
     }
+    Py_DECREF(key);
   }
   return nullptr;
 }
